@@ -68,6 +68,8 @@ pub struct Route {
     pub text_chain: bool,
     /// bit s set: the caller has closed its own standard descriptor s (a daemon); the numbers are free when the exchange starts
     pub free_std: u8,
+    /// pipelines: the scripted child is the *last* command (a pass-through command feeds it), not the first
+    pub child_last: bool,
 }
 
 #[derive(Clone, Debug)]
@@ -208,7 +210,12 @@ pub fn exchange(ctx: &mut Ctx, cfg: &Xcfg) -> Xres {
             // stage 1 copies its input verbatim (a=1, b=0) and appends the trailer [1:len:hash]
             let e0 = Exec::cmd(&argv[0]).args(&argv[1..]);
             let e1 = Exec::cmd(&argv[0]).args(&["stage", "1", "1", "0", "0", "0", "0"]).arg(dir.join("stage1.rep"));
-            let mut pl = e0 | e1;
+            let mut pl = if cfg.route.child_last {
+                // pass-through first (it appends [0:len:hash] to what it copies), the scripted child last
+                Exec::cmd(&argv[0]).args(&["stage", "0", "1", "0", "0", "0", "0"]).arg(dir.join("stage0.rep")) | e0
+            } else {
+                e0 | e1
+            };
             if let Some(i) = &cfg.input {
                 pl = pl.stdin(i.clone());
             }
